@@ -1,0 +1,14 @@
+//go:build verif
+
+// Verification hook (build tag "verif" only): accessor for the unexported config sort of the
+// Gateway API conversion. No behaviour change; absent from normal builds.
+
+package gateway
+
+import "istio.io/istio/pkg/config"
+
+// VerifC17SortConfigByCreationTime exposes sortConfigByCreationTime (sorts in place).
+func VerifC17SortConfigByCreationTime(configs []config.Config) []config.Config {
+	sortConfigByCreationTime(configs)
+	return configs
+}
